@@ -303,7 +303,9 @@ func TestC12(t *testing.T) {
 					if excludeCollision {
 						rec.Exclude("C12/linear-release/same-height-same-end-same-coins")
 					} else {
-						w.keeperGaugeCoins(chain.Acc(rapid.IntRange(0, 2).Draw(rt, "payer2")), coins, dur)
+						for k, more := 0, rapid.SampledFrom([]int{1, 1, 2, 3}).Draw(rt, "howManyMore"); k < more; k++ { // twins, triplets, quadruplets
+							w.keeperGaugeCoins(chain.Acc(rapid.IntRange(0, 2).Draw(rt, "payer2")), coins, dur)
+						}
 						rec.Count("twin-gauges")
 					}
 				}
